@@ -1049,7 +1049,7 @@ Section Batch.
     pinv m rc t -> brel Dnone (store_of m) (pstate m rc t) (batch_begin (pstate m rc t)).
   Proof.
     intros (_ & _ & Hcp & _). exists m, (scratch_new (store_of m)).
-    cbn [batch_begin outer_store t_db t_root t_prune t_refc t_pending Refine_write_prune.pstate].
+    cbn [batch_begin batch_base t_db t_root t_prune t_refc t_pending Refine_write_prune.pstate].
     repeat (split; [reflexivity|]). constructor.
     - reflexivity.
     - constructor.
@@ -1102,7 +1102,7 @@ Section Batch.
       { rewrite (sr_wrapped _ _ _ _ _ _ Hs). reflexivity. }
       { exact (sr_nodup _ _ _ _ _ _ Hs). }
       exists inner, (cells w'), (t_refc inner). split; [exact Erun|]. split.
-      + unfold batch_commit, inner_scratch. rewrite Hds. cbn [t_prune Refine_write_prune.pstate]. rewrite Ec.
+      + unfold batch_commit, commit_db, inner_scratch. cbn [t_db t_prune Refine_write_prune.pstate]. rewrite Hds. rewrite Ec.
         cbn [t_prune Refine_write_prune.pstate with_db with_refc with_root t_db t_root t_refc t_pending wrapped].
         rewrite Hr1. rewrite (store_eta w' Hb') at 1. reflexivity.
       + split; [|repeat (split; [assumption|]); exact Hinn].
@@ -1225,7 +1225,7 @@ Section Batch.
     brel (Dkeys m) (store_of m) (pstate (exact_store m t) (exact_counts m t) t) (batch_begin (plain m (troot H t))).
   Proof.
     intro Hrep. exists (exact_store m t), (scratch_new (store_of m)).
-    cbn [batch_begin outer_store t_db t_root t_prune t_refc t_pending Refine_write_prune.pstate plain].
+    cbn [batch_begin batch_base t_db t_root t_prune t_refc t_pending Refine_write_prune.pstate plain].
     repeat (split; [reflexivity|]). constructor.
     - reflexivity.
     - constructor.
@@ -1308,7 +1308,7 @@ Section Batch.
     assert (Hwf' : wf t' = true) by (apply Tree_traverse_proofs.canonical_wf; exact Hcn).
     assert (Hout1 : with_db (plain m (troot H t)) (DPlain (wrapped (mkScratch w' []))) = np (troot H t) [] None m1).
     { unfold with_db, np, plain. cbn [t_root t_prune t_refc t_pending wrapped]. rewrite (store_eta w' Hb') at 1. reflexivity. }
-    exists inner. unfold batch_commit, inner_scratch. rewrite Hds. cbn [t_prune plain]. rewrite Ec, Hout1.
+    exists inner. unfold batch_commit, commit_db, inner_scratch. cbn [t_db t_prune plain]. rewrite Hds. rewrite Ec, Hout1.
     cbn [t_root plain np]. rewrite Hr1.
     destruct (bytes_eqb (troot H t) (troot H t')) eqn:Er; cbn [negb].
     - (* the root did not change *)
